@@ -12,6 +12,10 @@ Round 3: the tolerance appended to the bound is constant-folded per comparator
 with the locals substituted in execution order; boundsconstrain is decided on
 its return terms (every (min[i], max[i]) reaches impose_bounds; symbolic
 pipeline).
+Round 4: the strictness tolerances are read under their own keys; the plain
+bounds constraint's None conversion, membership and addressing (shared with
+C16.h); merge's exclusive table is selected by an explicit inclusive=False read
+as given.
 NOT decided: behaviour of the exec-generated functions on vectors.
 """
 import ast
